@@ -2,7 +2,9 @@
    Part 1: the deadline-aware queue (common/sync.go), model Model/DChan.v.
    Part 2: Client / Server lifecycle machines (transport/client.go, server.go), model Model/Lifecycle.v.
    All theorems quantify over every schedule (list of actors), any number of threads and any
-   per-thread programs.  cfg `fixed` = code after the fix: commits, `orig` = code as found. *)
+   per-thread programs.  cfg `fixed` = code after the three fix: commits, `prev` = after the first two
+   (Close still takes d.m first), `cand` = the new Close without the barrier in Recv (a refuted
+   candidate repair), `orig` = code as found. *)
 From Hop Require Import Base DChan DChanProofs.
 Local Open Scope nat_scope.
 
@@ -32,12 +34,13 @@ Proof.
 Qed.
 Print Assumptions c17_recv_eof_before_data_refuted.
 
-(* fixed code: once any Recv has returned io.EOF the queue is closed and empty in every later
-   state, and everything ever sent has been delivered *)
+(* fixed code (eof_safe: the re-poll, and with the new Close also the barrier in Recv; `fixed` and
+   `prev` both qualify): once any Recv has returned io.EOF the queue is closed and empty in every
+   later state, and everything ever sent has been delivered *)
 Theorem c17_data_before_eof : forall c size progs x,
   wf_progs progs = true -> reachable c size progs x ->
   forall i t, nth_error (ths x) i = Some t ->
-    (fix_repoll c = true -> In (KRecv, RErr eEOF) (rets t) ->
+    (eof_safe c = true -> In (KRecv, RErr eEOF) (rets t) ->
        closed (shd x) = true /\ buf (shd x) = [] /\ sent (shd x) = map snd (taken (shd x))) /\
     (* and a Recv never reports success without an item *)
     (forall e, In (KRecv, RErr e) (rets t) -> e <> 0%N).
@@ -51,9 +54,25 @@ Print Assumptions c17_data_before_eof.
 (* the regression schedule on the fixed model: the same interleaving now delivers the item *)
 Example c17_data_before_eof_regression :
   exists x, run fixed (init 4 [[ORecv]; [OSend 7; OClose]])
-      [T 0; T 1; T 1; T 1; T 1; T 1; T 1; T 1; T 1; T 1; T 0; T 0] = Some x /\
-    map rets (ths x) = [[(KRecv, RItem 7)]; [(KSend, RErr eNil); (KClose, RErr eNil)]].
-Proof. eexists. split; vm_compute; reflexivity. Qed.
+      [T 0; T 1; T 1; T 1; T 1; T 1; T 1; T 1; T 1; T 0; T 0; T 0] = Some x /\
+    map rets (ths x) = [[(KRecv, RItem 7)]; [(KSend, RErr eNil); (KClose, RErr eNil)]] /\
+    eof_safe fixed = true /\ eof_safe prev = true /\ eof_safe cand = false.
+Proof. eexists. split; [vm_compute; reflexivity|]. vm_compute. auto. Qed.
+
+(* the candidate repair "Close publishes and cancels first, then waits for d.m" ALONE is wrong: a
+   Send in flight (past its `closed` check, parked before its select) enqueues after a Recv has
+   seen `closed`, found the queue empty and reported io.EOF; the next Recv returns data after
+   end-of-stream.  (With the barrier the same schedule parks the Recv behind the Send: see
+   c17_close_releases_blocked_send_instance2.) *)
+Theorem c17_close_candidate_without_barrier_refuted :
+  exists l x, run cand (init 1 [[OSend 7]; [OClose]; [ORecv; ORecv]]) l = Some x /\
+    (exists t, nth_error (ths x) 2 = Some t /\ rets t = [(KRecv, RErr eEOF); (KRecv, RItem 7)]) /\
+    (exists t, nth_error (ths x) 0 = Some t /\ rets t = [(KSend, RErr eNil)]).
+Proof.
+  exists [T 0; T 0; T 0; T 0; T 1; T 2; T 2; T 2; T 0; T 2].
+  eexists. split; [vm_compute; reflexivity|]. simpl. split; eexists; split; reflexivity.
+Qed.
+Print Assumptions c17_close_candidate_without_barrier_refuted.
 
 (* ------------------------------------------------------------------ close *)
 (* exactly one Close call reports nil (and only when the queue really is closed), every other EOF *)
@@ -78,15 +97,15 @@ Proof.
 Qed.
 Print Assumptions c17_lost_wakeup_after_close_refuted.
 
-(* fixed code: after `closed` is set no wake-up is lost — every unfinished thread can step, or a
-   thread that is never blocked (the mutex holder, or a Close/SetDeadline about to cancel) can *)
+(* fixed code: after `closed` is set no wake-up is lost — every unfinished thread can step, or the
+   mutex holder can, or a thread that is never blocked (a Close/SetDeadline about to cancel) can *)
 Theorem c17_no_stuck_after_close : forall c size progs x,
   fix_recheck c = true -> wf_progs progs = true -> reachable c size progs x ->
   closed (shd x) = true ->
   forall i t, nth_error (ths x) i = Some t -> unfinished t = true ->
     enabled c x (Th i false) = true \/
     exists j tj, j <> i /\ nth_error (ths x) j = Some tj /\
-                 never_blocks (tpc tj) = true /\ (lock_pc (tpc tj) || helper_pc (tpc tj) = true)%bool /\
+                 (lock_pc (tpc tj) || helper_pc (tpc tj) = true)%bool /\
                  enabled c x (Th j false) = true.
 Proof. exact no_stuck_after_close. Qed.
 Print Assumptions c17_no_stuck_after_close.
@@ -113,24 +132,71 @@ Print Assumptions c17_close_releases_everyone.
    select that is released (same race as the refutation above, now with the re-check) *)
 Example c17_no_stuck_instance :
   exists x, run fixed (init 4 [[ORecv]; [OSetDl DZero]; [OClose]])
-      [T 0; T 0; T 1; T 2; T 2; T 2; T 2; T 1; T 0; T 0] = Some x /\
+      [T 0; T 0; T 1; T 2; T 2; T 2; T 1; T 0; T 0] = Some x /\
     closed (shd x) = true /\ map tpc (ths x) = [R_select 1; D_recheck; Idle] /\
     enabled fixed x (T 0) = false /\ enabled fixed x (T 1) = true /\ wf_progs [[ORecv]; [OSetDl DZero]; [OClose]] = true.
 Proof. eexists. split; [vm_compute; reflexivity|]. vm_compute. auto 10. Qed.
 
-(* what does NOT hold (open finding C17:close-behind-blocked-send): Send keeps the queue mutex
-   while blocked on a full queue, Close needs that mutex before it can set `closed`, so Close does
-   not release such a Send — both calls hang until a receiver or a deadline intervenes.  Holds for
-   the fixed code too (design-level; see docs/C17.md). *)
-Theorem c17_close_releases_blocked_send_refuted :
-  exists l x, run fixed (init 1 [[OSend 1; OSend 2]; [OClose]]) l = Some x /\
-    terminal fixed x = true /\ all_finished x = false /\ closed (shd x) = false /\
+(* code before the third fix (`prev`; finding C17:close-behind-blocked-send, now fixed): Send keeps
+   the queue mutex while blocked on a full queue, Close needed that mutex before it could set
+   `closed`, so Close did not release such a Send — both calls hung until a receiver or a deadline
+   intervened. *)
+Theorem c17_close_releases_blocked_send_original_refuted :
+  exists l x, run prev (init 1 [[OSend 1; OSend 2]; [OClose]]) l = Some x /\
+    terminal prev x = true /\ all_finished x = false /\ closed (shd x) = false /\
     map tpc (ths x) = [S_select 2 0; Idle] /\ map prog (ths x) = [[]; [OClose]].
 Proof.
   exists [T 0; T 0; T 0; T 0; T 0; T 0; T 0; T 0; T 0].
   eexists. split; [vm_compute; reflexivity|]. vm_compute. auto 10.
 Qed.
-Print Assumptions c17_close_releases_blocked_send_refuted.
+Print Assumptions c17_close_releases_blocked_send_original_refuted.
+
+(* fixed code, every schedule: a Close call is never blocked before it has published `closed` and
+   cancelled the deadline channel (it takes d.m only afterwards); once `closed` is published every
+   Send parked in its blocking select — it holds d.m, the queue may be full — can step, or a
+   never-blocked thread is about to cancel its channel; what it then reports is a non-nil error.
+   With c17_no_stuck_after_close / c17_close_releases_everyone (closed + nothing can move => every
+   call has returned, Close's own wait for d.m included) and c17_steps_bounded this is "every call
+   returns, blocked calls are released by close". *)
+Theorem c17_close_releases_blocked_send : forall c size progs x,
+  fix_close c = true -> fix_recheck c = true -> wf_progs progs = true -> reachable c size progs x ->
+  (forall i t, nth_error (ths x) i = Some t ->
+     (tpc t = Idle /\ exists r, prog t = OClose :: r) \/ tpc t = C2_cancel ->
+     enabled c x (Th i false) = true) /\
+  (closed (shd x) = true -> forall i t v g, nth_error (ths x) i = Some t -> tpc t = S_select v g ->
+     enabled c x (Th i false) = true \/
+     exists k tk, nth_error (ths x) k = Some tk /\ helper_pc (tpc tk) = true /\ enabled c x (Th k false) = true) /\
+  (forall i t, nth_error (ths x) i = Some t -> tpc t = S_err -> derr (shd x) <> 0%N).
+Proof. exact close_releases_blocked_send. Qed.
+Print Assumptions c17_close_releases_blocked_send.
+
+(* non-vacuity: the witness schedule of the refutation on the fixed code — the second Send is
+   parked on the full queue holding d.m, Close can step; after Close's two first actions the Send
+   is released with io.EOF, Close returns nil, the first item is still queued *)
+Example c17_close_releases_blocked_send_instance :
+  exists x1 x2,
+    run fixed (init 1 [[OSend 1; OSend 2]; [OClose]]) [T 0; T 0; T 0; T 0; T 0; T 0; T 0; T 0; T 0] = Some x1 /\
+    map tpc (ths x1) = [S_select 2 0; Idle] /\ enabled fixed x1 (T 0) = false /\ enabled fixed x1 (T 1) = true /\
+    run fixed x1 [T 1; T 1; T 0; T 0; T 1] = Some x2 /\
+    map rets (ths x2) = [[(KSend, RErr eNil); (KSend, RErr eEOF)]; [(KClose, RErr eNil)]] /\
+    buf (shd x2) = [1%N] /\ all_finished x2 = true /\ wf_progs [[OSend 1; OSend 2]; [OClose]] = true.
+Proof. eexists. eexists. split; [vm_compute; reflexivity|]. vm_compute. auto 10. Qed.
+(* the schedule that refutes the candidate, on the fixed code: the Recv that saw `closed` waits at
+   the barrier behind the Send in flight (and is not enabled), the Send and the Close are *)
+Example c17_close_releases_blocked_send_instance2 :
+  exists x, run fixed (init 1 [[OSend 7]; [OClose]; [ORecv; ORecv]]) [T 0; T 0; T 0; T 0; T 1; T 2; T 2] = Some x /\
+    map tpc (ths x) = [S_select 7 0; C2_cancel; R_barrier] /\
+    enabled fixed x (T 2) = false /\ enabled fixed x (T 0) = true /\ enabled fixed x (T 1) = true.
+Proof. eexists. split; [vm_compute; reflexivity|]. vm_compute. auto. Qed.
+
+(* nothing is enqueued after Close has returned nil (both versions of Close): no Send is past its
+   `closed` check any more, and no later step changes the sequence of items ever put on the queue *)
+Theorem c17_no_enqueue_after_close : forall c size progs x,
+  wf_progs progs = true -> reachable c size progs x -> 1 <= sumf nclose (ths x) ->
+  closed (shd x) = true /\ cnt sendstage (ths x) = 0 /\
+  forall a x', step c x a = Some x' -> sent (shd x') = sent (shd x) /\ 1 <= sumf nclose (ths x').
+Proof. exact no_enqueue_after_close. Qed.
+Print Assumptions c17_no_enqueue_after_close.
 
 (* ------------------------------------------------------------------ deadlines *)
 (* once the deadline channel is closed (expiry or Cancel) every caller parked in a blocking select
@@ -334,3 +400,143 @@ Example c17_server_close_instance :
     map vrets (vths x) = [[(VAccept, 1)]; [(VRead 0, 1)]; [(VClose, 7)]; [(VClose, 7)]]%N /\
     vst (vshd x) = VClosed.
 Proof. eexists. split; [vm_compute; reflexivity|]. vm_compute. auto. Qed.
+
+(* ==========================================================================================
+   Part 4: the read side of transport.Handle — leftover handling of Read / ReadMsg
+   (Model/HandleRead.v, Proofs/HandleReadProofs.v; docs/C17.md section "Handle.Read / ReadMsg") *)
+From Hop Require Import Base HandleRead HandleReadProofs.
+Local Open Scope N_scope.
+
+(* ------------------------------------------------------------------ byte-stream law *)
+(* Nothing lost, nothing duplicated, order kept: at every moment the bytes handed to the reader so
+   far, then the leftover buffer, then the queued messages, are exactly the bytes of the messages
+   accepted into the queue so far.  (A message that finds the queue full, or the session closed,
+   is dropped whole by handleSessionMessage before it is accepted — the datagram layer may lose
+   messages, the read path may not lose bytes.) *)
+Theorem c17_read_stream_law : forall cap ex ops s evs,
+  hr_run (hrinit cap ex) ops = (s, evs) ->
+  hr_delivered evs ++ hrbuf s ++ List.concat (hrq s) = hr_accepted evs.
+Proof. exact hr_stream_law. Qed.
+Print Assumptions c17_read_stream_law.
+
+(* the same from an arbitrary state (the step-by-step form of the law) *)
+Theorem c17_read_stream_law_from_any_state : forall ops s s' evs,
+  hr_run s ops = (s', evs) ->
+  hr_pending s ++ hr_accepted evs = hr_delivered evs ++ hr_pending s'.
+Proof. exact hr_run_stream. Qed.
+Print Assumptions c17_read_stream_law_from_any_state.
+
+(* a call never returns more than the caller's buffer holds *)
+Theorem c17_read_fits_buffer : forall s n s' b,
+  (hr_step s (HRead n) = (s', HData b) \/ hr_step s (HReadMsg n) = (s', HData b)) -> len b <= n.
+Proof. exact hr_read_fits. Qed.
+Print Assumptions c17_read_fits_buffer.
+
+(* Non-vacuity: a 5-byte message read with buffers of 2, 0, 2, 4 bytes while a second message
+   arrives in between, then Close: the fragments are 2+0+2+1 bytes, then the second message, then
+   io.EOF; delivered = accepted = both messages. *)
+Example c17_read_stream_instance :
+  let ops := [HArrive [1;2;3;4;5]; HRead 2; HRead 0; HArrive [6;7]; HRead 2; HRead 4; HShut; HRead 4; HRead 4] in
+  let '(s, evs) := hr_run (hrinit 4 false) ops in
+  map snd evs = [HQueued; HData [1;2]; HData []; HQueued; HData [3;4]; HData [5]; HNil; HData [6;7]; HEof] /\
+  hr_delivered evs = [1;2;3;4;5;6;7] /\ hr_accepted evs = [1;2;3;4;5;6;7] /\ hrbuf s = [] /\ hrq s = [].
+Proof. vm_compute. repeat split. Qed.
+
+(* ------------------------------------------------------------------ data before end-of-stream *)
+(* A reader call reports io.EOF only on a closed handle whose leftover buffer and queue are both
+   empty, and it changes nothing. *)
+Theorem c17_read_eof_only_when_drained : forall s o s',
+  hr_is_reader_ev (o, HEof) = true -> hr_step s o = (s', HEof) ->
+  (hrclosed s = true /\ hrbuf s = [] /\ hrq s = []) /\ s' = s.
+Proof. exact hr_eof_drained. Qed.
+Print Assumptions c17_read_eof_only_when_drained.
+
+(* For every history: when a Read/ReadMsg reports io.EOF, every byte accepted so far has been
+   delivered; afterwards nothing is accepted, nothing is delivered, and every Read/ReadMsg reports
+   io.EOF again (no data after end-of-stream). *)
+Theorem c17_read_data_before_eof : forall cap ex ops1 o ops2 s1 evs1 s2 s3 evs2,
+  hr_run (hrinit cap ex) ops1 = (s1, evs1) ->
+  hr_is_reader_ev (o, HEof) = true ->
+  hr_step s1 o = (s2, HEof) ->
+  hr_run s2 ops2 = (s3, evs2) ->
+  hr_delivered evs1 = hr_accepted evs1 /\
+  hr_accepted evs2 = [] /\ hr_delivered evs2 = [] /\
+  Forall (fun e => hr_is_reader_ev e = true -> snd e = HEof) evs2.
+Proof. exact hr_data_before_eof. Qed.
+Print Assumptions c17_read_data_before_eof.
+
+(* runs compose, so the two halves above are one history *)
+Theorem c17_read_run_app : forall ops1 ops2 s s1 evs1 s2 evs2,
+  hr_run s ops1 = (s1, evs1) -> hr_run s1 ops2 = (s2, evs2) ->
+  hr_run s (ops1 ++ ops2) = (s2, evs1 ++ evs2).
+Proof. exact hr_run_app. Qed.
+Print Assumptions c17_read_run_app.
+
+(* Close does not discard anything: a Read with a non-empty buffer on a handle that still holds
+   something (leftover or queued, closed or not) returns data — never an error, never blocks — and
+   strictly reduces what is held ... *)
+Theorem c17_read_progress : forall s n,
+  0 < n -> (hr_measure s > 0)%nat ->
+  exists s' b, hr_step s (HRead n) = (s', HData b) /\ (hr_measure s' < hr_measure s)%nat /\
+               hrclosed s' = hrclosed s.
+Proof. exact hr_read_progress. Qed.
+Print Assumptions c17_read_progress.
+
+(* ... so a closed handle is drained by at most [hr_measure s] (= bytes + messages held) Reads of any
+   non-empty buffer size: all of them return data, together exactly the pending bytes in order, and
+   the next Read reports io.EOF. *)
+Theorem c17_read_close_then_drain : forall n, 0 < n -> forall k s,
+  hrclosed s = true -> (hr_measure s <= k)%nat ->
+  exists j s' evs, (j <= k)%nat /\ hr_run s (hr_reads n j) = (s', evs) /\
+    Forall (fun e => exists b, snd e = HData b) evs /\
+    hr_delivered evs = hr_pending s /\ hr_accepted evs = [] /\
+    hr_step s' (HRead n) = (s', HEof).
+Proof. exact hr_drain. Qed.
+Print Assumptions c17_read_close_then_drain.
+
+(* Non-vacuity: leftover [3;4;5] and two queued messages (one empty) on a closed handle, 2-byte
+   buffer: measure 3 + (1+2) + (1+0) = 7; five Reads return 2,1,2,0 bytes... then io.EOF. *)
+Example c17_read_drain_instance :
+  let s := mkHR [[6;7]; []] [3;4;5] true false 4 in
+  hr_measure s = 7%nat /\
+  map snd (snd (hr_run s (hr_reads 2 5))) = [HData [3;4]; HData [5]; HData [6;7]; HData []; HEof].
+Proof. vm_compute. split; reflexivity. Qed.
+
+(* ------------------------------------------------------------------ message law (ReadMsg) *)
+(* A connection that is read with ReadMsg only (no Read): the messages returned, then the message
+   parked in the buffer by an ErrBufOverflow (if any), then the queue, are exactly the accepted
+   messages — whole, in order, at most once (C03: "byte-identical to a message the peer wrote"). *)
+Theorem c17_readmsg_whole_messages : forall cap ex ops s evs,
+  forallb (fun o => negb (hr_is_read_op o)) ops = true ->
+  hr_run (hrinit cap ex) ops = (s, evs) ->
+  hr_delivered_msgs evs ++ hr_bufmsg s ++ hrq s = hr_accepted_msgs evs.
+Proof. exact hr_msg_law. Qed.
+Print Assumptions c17_readmsg_whole_messages.
+
+(* Non-vacuity: a 9-byte message, ReadMsg with 8 bytes twice (ErrBufOverflow, message kept), then 9. *)
+Example c17_readmsg_overflow_instance :
+  let ops := [HArrive [1;2;3;4;5;6;7;8;9]; HReadMsg 8; HReadMsg 8; HReadMsg 9; HReadMsg 9] in
+  map snd (snd (hr_run (hrinit 2 true) ops)) = [HQueued; HOverflow; HOverflow; HData [1;2;3;4;5;6;7;8;9]; HTimeout].
+Proof. vm_compute. reflexivity. Qed.
+
+(* The hypothesis "no Read" is needed: after a short Read, ReadMsg returns the rest of the fragmented
+   message, which is not a message the peer wrote (the byte-stream law still holds).  This is the
+   stream interface working as written ("If there's buffered data, return all of it"), recorded so
+   that nobody reads the message law as covering mixed use.  Replayed on the real Handle by the
+   driver (class handle-read-script). *)
+Theorem c17_readmsg_after_short_read_returns_fragment_refuted :
+  exists ops s evs, hr_run (hrinit 4 true) ops = (s, evs) /\
+    hr_accepted_msgs evs = [[1;2;3;4;5]] /\ hr_delivered_msgs evs = [[3;4;5]] /\
+    hr_delivered evs = [1;2;3;4;5].
+Proof. exists [HArrive [1;2;3;4;5]; HRead 2; HReadMsg 10]. eexists. eexists. vm_compute. repeat split. Qed.
+Print Assumptions c17_readmsg_after_short_read_returns_fragment_refuted.
+
+(* Also as written: Read with a zero-length buffer on an empty leftover buffer still performs the
+   Recv — on an idle open handle it blocks (or times out / reports io.EOF), and when a message is
+   queued it moves the whole message into the leftover buffer and returns (0, nil). *)
+Example c17_read_zero_length_buffer :
+  map snd (snd (hr_run (hrinit 4 false) [HRead 0])) = [HBlock] /\
+  map snd (snd (hr_run (hrinit 4 true) [HRead 0])) = [HTimeout] /\
+  (let '(s, evs) := hr_run (hrinit 4 false) [HArrive [1;2;3;4]; HRead 0] in
+   map snd evs = [HQueued; HData []] /\ hrbuf s = [1;2;3;4] /\ hrq s = []).
+Proof. vm_compute. repeat split. Qed.
